@@ -395,12 +395,17 @@ class World:
             return self.sim_download("sim://bucket/" + res, filepath, NotFound)
         # FileCache objects are not meant to be called from several threads at once (out of scope, DESIGN 13):
         # the user's chained resource serialises its requests on the second cache with a lock
-        self.sched.wait(lambda: not self.chain_busy, "chain.lock")
-        self.chain_busy = True
+        me = self.sched.owner()
+        self.sched.wait(lambda: self.chain_busy in (False, me), "chain.lock")
+        held = self.chain_busy == me
+        self.chain_busy = me
         try:
-            paths = self.fc.filepaths(["sim://bucket/" + res], OTHER_NAME)
+            # (under its own comment suffix: the second cache may also hold this object post-processed for
+            # direct requests, and directives are not part of a cache file's identity)
+            paths = self.fc.filepaths(["sim://bucket/" + res + "<<chainraw"], OTHER_NAME)
         finally:
-            self.chain_busy = False
+            if not held:
+                self.chain_busy = False
         if not paths:
             raise NotFound("chained object %s not found" % uri)
         with open(paths[0], "rb") as f:
@@ -1037,12 +1042,17 @@ class World:
             # a request to the second named cache; must not touch the first cache's directory
             if self.knobs.get("second_cache") and self.knobs.get("api") == "module" and self.fc.exists(OTHER_NAME):
                 self.current_req = list(op["keys"])
-                self.sched.wait(lambda: not self.chain_busy, "chain.lock")
-                self.chain_busy = True
+                # (keys that the FIRST cache obtains through this one are plain store objects here)
+                other_uris = [self.uris[i].replace("chain://", "sim://") for i in op["keys"]]
+                me = self.sched.owner()
+                self.sched.wait(lambda: self.chain_busy in (False, me), "chain.lock")
+                held = self.chain_busy == me
+                self.chain_busy = me
                 try:
-                    obs.result = self.fc.filepaths([self.uris[i] for i in op["keys"]], OTHER_NAME)
+                    obs.result = self.fc.filepaths(other_uris, OTHER_NAME)
                 finally:
-                    self.chain_busy = False
+                    if not held:
+                        self.chain_busy = False
         elif kind == "REMOVE":
             obs.result = self._remove(self.uris[op["key"]])
         elif kind == "PURGE":
